@@ -8,11 +8,11 @@ ESC = re.compile(r"\x1b\[[0-9;]*m")
 
 
 def dec_name(t):
-    return t.replace("~", " ").replace("^", "\n")
+    return t.replace("~", " ").replace("^", "\n").replace("%", "\r")
 
 
 def enc_name(n):
-    return n.replace(" ", "~").replace("\n", "^")
+    return n.replace(" ", "~").replace("\n", "^").replace("\r", "%")
 
 
 def parse_d(tokens):
